@@ -186,6 +186,13 @@ def gen_cases(tier: str, seed: int) -> List[Dict]:
         add("sub", [a, a], ["sub", 0, 1], tag="-self")
         add("add", [a], ["add", 0, ["neg", 0]], tag="-negself")
         add("mul", [a], ["sub", ["mul", 0, 0], ["sq", 0]], tag="-sq")
+    # 2b. operands that are strided views (poly.T, poly[::-1]) of a base array
+    for op in ("add", "sub", "mul"):
+        a = poly("a", ("q0", "q1"), (2, 3), 2, budget // 2, mode="raw")
+        a["view"] = "T"
+        b = poly("b", ("q1",), (3, 2), 1, budget // 2, mode="raw")
+        b["view"] = "rev"
+        add(op, [a, b], [op, 0, 1], tag="-views")
     # 3. partner kinds: scalar / ndarray / list on either side
     for kind in ("scalar", "array", "list"):
         for op in ("add", "sub", "mul"):
